@@ -37,6 +37,12 @@ KL = 'kronecker_factored_lattice_lib'
 
 
 def run(prog, res):
+  from ..rules import dtypes, validate
+  dtypes.selfcheck()
+  _cl = validate.call_closure(prog, [prog.function(q) for q in ('kronecker_factored_lattice_layer.KroneckerFactoredLattice.call', 'pwl_calibration_layer.PWLCalibration.call', 'categorical_calibration_layer.CategoricalCalibration.call', 'lattice_layer.Lattice.call')],
+                              follow_init=False)
+  dtypes.check_functions(prog, res, [f for _, f in sorted(_cl.items())])
+  res.floor('D1', 10)
   _g1(prog, res)
   _g3(prog, res)
   _g2(prog, res)
@@ -292,7 +298,15 @@ def _g2(prog, res):
         assigns.append((n.target, n.value))
 
     def is_t(e):
+      # value uses only: `<tainted>.dtype` / `.shape` read metadata, no data
+      meta = set()
       for x in ast.walk(e):
+        if isinstance(x, ast.Attribute) and x.attr in ('dtype', 'shape'):
+          for y in ast.walk(x.value):
+            meta.add(id(y))
+      for x in ast.walk(e):
+        if id(x) in meta:
+          continue
         if isinstance(x, ast.Name) and x.id in tainted:
           return True
         if isinstance(x, ast.Attribute) and dotted(x) in tainted:
